@@ -30,8 +30,14 @@ structure St where
   txs : List (Hash × Nat) := []
 deriving DecidableEq, Repr, Inhabited
 
-/-- does input `i` spend utxo `u` -/
-def spends (i : TxIn) (u : Utxo) : Bool := !i.isGen && i.prev == u.txid && i.idx == u.idx
+/-- does input `i` name utxo `u` -/
+def names (i : TxIn) (u : Utxo) : Bool := i.prev == u.txid && i.idx == u.idx
+
+/-- consume one input: the UTXO it names leaves the set and its script hash is touched;
+    generation-like inputs consume nothing -/
+def spendInput (st : List Utxo × List HashX) (i : TxIn) : List Utxo × List HashX :=
+  if i.isGen then st
+  else (st.1.filter (fun u => !names i u), st.2 ++ (st.1.filter (names i)).map (·.hx))
 
 /-- spendable outputs of a tx as UTXOs -/
 def newUtxos (act height txnum : Nat) (txid : Hash) : List TxOut → Nat → List Utxo
@@ -41,12 +47,10 @@ def newUtxos (act height txnum : Nat) (txid : Hash) : List TxOut → Nat → Lis
     else ⟨txid, idx, txnum, height, o.value, o.hx⟩ :: newUtxos act height txnum txid rest (idx + 1)
 
 def applyTx (act height : Nat) (s : St) (tx : Tx) : St :=
-  let n := s.txs.length
-  let spentHx := tx.ins.flatMap (fun i => (s.utxos.filter (spends i)).map (·.hx))
-  let rest := s.utxos.filter (fun u => !tx.ins.any (fun i => spends i u))
-  let new := newUtxos act height n tx.id tx.outs 0
-  { utxos := rest ++ new,
-    touched := s.touched ++ [spentHx ++ new.map (·.hx)],
+  { utxos := (tx.ins.foldl spendInput (s.utxos, [])).1 ++
+               newUtxos act height s.txs.length tx.id tx.outs 0,
+    touched := s.touched ++ [(tx.ins.foldl spendInput (s.utxos, [])).2 ++
+               (newUtxos act height s.txs.length tx.id tx.outs 0).map (·.hx)],
     txs := s.txs ++ [(tx.id, height)] }
 
 def applyBlock (act : Nat) (s : St) (height : Nat) (b : Block) : St :=
